@@ -250,6 +250,15 @@ Example c16_monitor_accepts_error_of_live_starter :
   let evs := [[1;0];[3;0;0];[1;0];[3;2;0];[5;1;1];[3;1;0];[3;1;0];[4;0];[3;1;0]] in
   run_check_once [] evs (run_obs hstep hinit evs) = [] /\ nth 8 (run_obs hstep hinit evs) [] = [4;0;9;0;5;2].
 Proof. vm_compute. split; reflexivity. Qed.
+(* a caller whose context ended like a deadline (status 12) / was cancelled with a cause (status 13) while it waited is handed
+   that context's own error / the cause instead of context.Canceled (seeded change C16_4B: Promise.Await returns
+   context.Cause(ctx)); on the unchanged library, and on the model, the same events end in status 4 (Canceled) *)
+Example c16_monitor_rejects_deadline_error_for_cancelled_caller :
+  flagged (run_check_once [] [[1;1];[1;0];[3;1;0];[4;1]] [[4;0];[4;0;1;0];[4;0;2;0;6;0];[4;0;12;0;6;0]]) 10 = true /\
+  flagged (run_check_once [] [[1;1];[1;0];[3;1;0];[4;1]] [[4;0];[4;0;1;0];[4;0;2;0;6;0];[4;0;13;0;6;0]]) 10 = true /\
+  run_obs hstep hinit [[1;1];[1;0];[3;1;0];[4;1]] = [[4;0];[4;0;1;0];[4;0;2;0;6;0];[4;0;4;0;6;0]] /\
+  run_check_once [] [[1;1];[1;0];[3;1;0];[4;1]] [[4;0];[4;0;1;0];[4;0;2;0;6;0];[4;0;4;0;6;0]] = [].
+Proof. vm_compute. repeat split; reflexivity. Qed.
 Example c16_monitor_rejects_early_return :
   flagged (run_check_memo [] [[1];[1]] [[6;0];[6;0;3;0]]) 7 = true.
 Proof. vm_compute. reflexivity. Qed.
